@@ -145,6 +145,10 @@ func decodeCredJWT(rawJWT string, unmarshaller JWTCredClaimsUnmarshaller) (jose.
 		return nil, nil, fmt.Errorf("unmarshal VC JWT claims: %w", err)
 	}
 
+	if credClaims == nil || credClaims.VC == nil {
+		return nil, nil, errors.New("JWT claims have no 'vc' claim")
+	}
+
 	// Apply VC-related claims from JWT.
 	credClaims.refineFromJWTClaims()
 
